@@ -51,12 +51,14 @@ type c11Run struct {
 	runOf              map[uint64]*c11Rec // goroutine id -> the run it is executing
 	sourceGone         bool               // the source dataset of the focused copy job has been deleted (variant "source disappears")
 	oldAfterGone       int                // deliveries holding entities of the deleted incarnation since then
+	everTransform      map[string]bool    // job ids that have a transform in some definition of the scenario
 }
 
 type c11Rec struct {
 	id       string
 	start    time.Time
 	rejected string // a delivery of this run was refused because of this entity
+	killed   bool   // a kill of this run has returned: the run's context is cancelled
 }
 
 func (r *c11Run) ev(format string, args ...any) {
@@ -124,6 +126,20 @@ func RunC11Scenario(sc *Scenario) (vd *Verdict) {
 			r.faultAt[f.At] = map[int]bool{}
 		}
 		r.faultAt[f.At][f.Hit] = true
+	}
+	r.everTransform = map[string]bool{}
+	noteJob := func(op *Op) {
+		if op.K == "addJob" && op.M["transform"] != nil {
+			r.everTransform[fmt.Sprint(op.M["id"])] = true
+		}
+	}
+	for i := range sc.Ops {
+		noteJob(&sc.Ops[i])
+	}
+	for _, t := range sc.Tasks {
+		for i := range t {
+			noteJob(&t[i])
+		}
 	}
 	oldT := http.DefaultTransport
 	http.DefaultTransport = c11Transport{r}
@@ -376,6 +392,17 @@ func (r *c11Run) installHooks() {
 				r.resulted[id]++
 			}
 		case "sink.dataset", "transform.batch":
+			if rec := r.runOf[gid]; rec != nil {
+				// the pipeline looks at the run's context before it hands a batch to the transform or, without one, to
+				// the sink; nothing yields between that look and this hook. A batch that starts after a kill of the
+				// run has returned was not stopped by it
+				// (with a transform the hook of a batch start fires in a worker goroutine: only jobs that never have a
+				// transform in this scenario are judged)
+				starts := name == "sink.dataset" && !r.everTransform[rec.id]
+				if starts && rec.killed {
+					r.fail(viol("C11", "kill", "kill-ignored", "job %s was killed while its run (started %s) held its slot; after the kill had returned the run went on and handed another batch to its %s", rec.id, rec.start.Format(time.RFC3339Nano), strings.SplitN(name, ".", 2)[0]))
+				}
+			}
 			if rec := r.runOf[gid]; name == "sink.dataset" && r.sourceGone && rec != nil && rec.id == "job1" {
 				// the source dataset was deleted (and perhaps created again, empty) while the run was under way. The batch
 				// that had been read before may still arrive; after it nothing of the deleted dataset may
@@ -496,7 +523,24 @@ func (r *c11Run) clientOp(op *Op) {
 			count("manual_runs")
 		}
 	case "killJob":
+		cur := func() *c11Rec {
+			r.mu.Lock()
+			defer r.mu.Unlock()
+			for _, rec := range r.runOf {
+				if rec.id == op.S && r.active[op.S] > 0 {
+					return rec
+				}
+			}
+			return nil
+		}
+		before := cur()
 		sch.KillJob(op.S)
+		if after := cur(); before != nil && after == before {
+			r.mu.Lock()
+			before.killed = true
+			r.Stats["kills_of_a_running_job"]++
+			r.mu.Unlock()
+		}
 		count("kills")
 	case "pause":
 		_ = sch.PauseJob(op.S)
